@@ -34,10 +34,9 @@ func (a *Auth) OnBasicAuthWrapper(pre server.OnBasicAuth) server.OnBasicAuth {
 					Code: codes.V3NotAuthorized,
 				}
 			}
-			if packets.IsVersion5(v) {
-				return &codes.Error{
-					Code: codes.NotAuthorized,
-				}
+			// fail closed, whatever the protocol version is
+			return &codes.Error{
+				Code: codes.NotAuthorized,
 			}
 		}
 		return nil
